@@ -532,6 +532,7 @@ class Facts:
         cfg = _os.path.basename(path).rsplit("-", 1)[0]
         self.inlined = inline_new_helpers(self.j, config=cfg if cfg in ("default", "export-metrics") else "default")
         self.renamed = self.j.get("renamed_functions", {})
+        self.renamed_fields = self.j.get("renamed_fields", {})
         self.adts = self.j["adts"]
         self.consts = self.j["consts"]
         self.impls = self.j["impls"]
